@@ -119,6 +119,8 @@ impl St {
 
 fn run(case: &Case, out: &mut Out) {
     let mut st: Option<St> = None;
+    let mut pool: Option<sozu_lib::pool::Pool> = None;
+    let mut held: BTreeMap<i128, sozu_lib::pool::Checkout> = BTreeMap::new();
     for op in &case.ops {
         let a = &op.args;
         if op.name == "new" {
@@ -132,6 +134,60 @@ fn run(case: &Case, out: &mut Out) {
                 held: BTreeSet::new(),
             });
             out.obs(&[]);
+            continue;
+        }
+        if op.name == "pool_new" || op.name == "checkout" || op.name == "checkin" {
+            // buffer pool accounting: lib/src/pool.rs
+            match op.name.as_str() {
+                "pool_new" => {
+                    held.clear();
+                    let (mn, mx) = (a[0].n() as usize, a[1].n() as usize);
+                    pool = Some(sozu_lib::pool::Pool::with_capacity(mn.min(mx), mx, 64));
+                    let p = pool.as_ref().unwrap();
+                    out.obs(&[tn(p.inner.used()), tn(p.inner.capacity()), tn(p.inner.maximum_capacity())]);
+                }
+                "checkout" => {
+                    let Some(p) = pool.as_mut() else {
+                        out.note("invalid-case: checkout before pool_new");
+                        out.obs(&[]);
+                        continue;
+                    };
+                    let id = a[0].n();
+                    let ok = if held.contains_key(&id) {
+                        false
+                    } else {
+                        match p.checkout() {
+                            Some(c) => {
+                                held.insert(id, c);
+                                true
+                            }
+                            None => false,
+                        }
+                    };
+                    if !ok && !held.contains_key(&id) && p.inner.used() < p.inner.maximum_capacity() {
+                        out.viol("pool-refused-below-maximum", &format!("checkout refused with {} of at most {} buffers in use", p.inner.used(), p.inner.maximum_capacity()));
+                    }
+                    out.obs(&[tbool(ok), tn(p.inner.used()), tn(p.inner.capacity()), tn(p.inner.maximum_capacity())]);
+                }
+                _ => {
+                    let Some(p) = pool.as_ref() else {
+                        out.note("invalid-case: checkin before pool_new");
+                        out.obs(&[]);
+                        continue;
+                    };
+                    let had = held.remove(&a[0].n()).is_some();
+                    out.obs(&[tbool(had), tn(p.inner.used()), tn(p.inner.capacity()), tn(p.inner.maximum_capacity())]);
+                }
+            }
+            if let Some(p) = pool.as_ref() {
+                // the property: buffers in use = buffers held, within capacity, within the maximum
+                if p.inner.used() != held.len() {
+                    out.viol("pool-drift", &format!("pool reports {} buffers in use, {} are held", p.inner.used(), held.len()));
+                }
+                if p.inner.used() > p.inner.capacity() || p.inner.capacity() > p.inner.maximum_capacity() {
+                    out.viol("pool-over-capacity", &format!("used {} capacity {} maximum {}", p.inner.used(), p.inner.capacity(), p.inner.maximum_capacity()));
+                }
+            }
             continue;
         }
         if op.name == "bb" {
